@@ -144,7 +144,7 @@ def cells(tier):
     # the rule forms that expose the known tzstr defects are legitimate VTIMEZONE rules too (onsets are listed explicitly)
     years = (1972, 1975) if q else (1971, 1972, 1973, 1974, 1975, 1976)
     variants = ("rrule", "rdate", "swapped") if q else ("rrule", "rdate", "swapped", "folded", "two")
-    for spec in (sp[:3] if q else sp):
+    for spec in (sp[:3] + [x for x in sp[3:] if x.get("no_tzstr")] if q else sp):
         for v in variants:
             ys = list(years)
             northern = P._rule_day_ordinal(spec["start"], 1971) < P._rule_day_ordinal(spec["end"], 1971)
